@@ -47,8 +47,8 @@ META = {
 
 INVS = ["NothingAfterEnd", "ExchangeOnePerInput", "ProducerOnePerTick", "LogOrderPreserved", "DataInOrder",
         "HeaderIffDeclared", "OneEnding", "DeviationsOnlyDropLogs", "ProgramSmall"]
-QUICK_SLICES = {("rich", 1, 1, 2), ("small", 1, 2, 2), ("multi", 2, 2, 2)}
-THOROUGH_SLICES = {("rich", 1, 2, 2), ("small", 1, 3, 2), ("multi", 3, 2, 2)}
+QUICK_SLICES = {"RichSteps": 1, "SmallSteps": 2, "MultiCalls": 2, "MaxTicks": 2}
+THOROUGH_SLICES = {"RichSteps": 2, "SmallSteps": 3, "MultiCalls": 3, "MaxTicks": 2}
 SOCKETS = ("pipe", "unix", "tcp", "shm")
 NAMED = ("LogsBeforeError", "ExchangeTrailingLogs", "DataBeforeError", "HeaderBeforeError")   # named deviations of the spec
 CLAUSE_DOC = {
@@ -129,10 +129,29 @@ def _corruptions(obs: dict) -> list[tuple[str, dict]]:
 
 
 def run(ctx: Ctx) -> None:
+    pools: list = []
+    try:
+        _run(ctx, pools)
+    finally:
+        for p in pools:
+            p.shutdown(wait=False, cancel_futures=True)
+
+
+def _run(ctx: Ctx, pools: list) -> None:
     from drivers import _c01_world as W
 
     t_start = time.time()
     wd = ctx.wd.stage("wire")
+    # worker processes are forked first, from a still small parent (copy-on-write faults on a large parent heap cost
+    # more system time than the scripts themselves); imports happen once, before the fork
+    info = W.install_fetch_fake()
+    ctx.extra["tenacity"] = info["tenacity"]
+    W.warm_up()
+    nproc = 8 if ctx.quick else 14
+    pool = ProcessPoolExecutor(max_workers=nproc, mp_context=get_context("fork"), initializer=W.worker_init)
+    pools.append(pool)
+    for f in [pool.submit(os.getpid) for _ in range(nproc * 2)]:
+        f.result()
     (wd / "c01_worker.py").write_text(W.WORKER_SRC)
     ctx.assume("drivers/_shims_fault/tenacity.py stands in for the uninstalled `tenacity` (externalization legs only)",
                "in-memory ExternalStorage + fake aiohttp session behind the real fetch_url (no network)",
@@ -153,18 +172,18 @@ def run(ctx: Ctx) -> None:
         total = 1
     else:
         slices = QUICK_SLICES if ctx.quick else THOROUGH_SLICES
-        cases = T.enumerate_cases(ctx, wd, "Semantics", slices=slices, invariants=INVS,
+        cases = T.enumerate_cases(ctx, wd, "Semantics", constants=slices, invariants=INVS,
                                   name="quick" if ctx.quick else "thorough", timeout=1500)
-        ctx.extra["slices"] = sorted(slices)
+        ctx.extra["slices"] = slices
         ctx.extra["cases_enumerated"] = len(cases)
         total = len(cases)
         cases.sort(key=lambda c: jhash(c["case"]))
         if ctx.quick:
-            chosen = _stratified(cases, ctx.rng, 300)
+            chosen = _stratified(cases, ctx.rng, 260)
             jobs = [{"case": c["case"], "xs": _xs(ctx.rng, len(c["case"]["calls"])), "cfgs": _quick_cfgs(i)}
                     for i, c in enumerate(chosen)]
         else:
-            ctx.rng.shuffle(cases)
+            cases = _stratified(cases, ctx.rng, len(cases))      # whatever fits the time budget is spread over all strata
             allcfg = list(SOCKETS) + _http_configs()
             jobs = []
             nsub = 0
@@ -180,15 +199,11 @@ def run(ctx: Ctx) -> None:
     for j in jobs:
         j["calls"] = j["case"]["calls"]
         j["subdir"] = str(wd)
-    budget = 25.0 if ctx.quick else 330.0
-    deadline = time.time() + budget
-    nproc = 8 if ctx.quick else 14
-    results: list = [None] * len(jobs)
-    info = W.install_fetch_fake()
-    ctx.extra["tenacity"] = info["tenacity"]
-    W.warm_up()                                   # imports happen once, before the worker processes fork
+    budget = 25.0 if ctx.quick else 360.0
     t_exec = time.time()
-    with ProcessPoolExecutor(max_workers=nproc, mp_context=get_context("fork"), initializer=W.worker_init) as ex:
+    deadline = t_exec + budget
+    results: list = [None] * len(jobs)
+    with pool as ex:
         futs = {}
         it = iter(enumerate(jobs))
         pending = 0
@@ -221,10 +236,11 @@ def run(ctx: Ctx) -> None:
         raise MachineryError("C01: no behaviour could be executed")
 
     # ---- code -> spec: group identical histories per behaviour, TLC judges each distinct one
-    observations, meta = [], []
+    records, meta = [], []          # records[r] = {case, obs: [...]}, meta[r][k] = {job, cfgs, synthetic}
     cfg_seen: dict[str, int] = {}
     enc_seen: dict[str, set] = {}
     ext_used = 0
+    synth = 0
     for i in executed:
         job, res = jobs[i], results[i]
         key = jhash(job["case"])
@@ -245,30 +261,32 @@ def run(ctx: Ctx) -> None:
                                "server_died": r.get("server_died")})
                 continue
             groups.setdefault(json.dumps(r["calls"], sort_keys=True), []).append(cfg)
+        obs, ms = [], []
         for hist, cfgs in groups.items():
             calls = json.loads(hist)
             is_ref = "pipe" in cfgs or ref_calls is None
-            observations.append({"case": job["case"], "obs": {"calls": calls, "ref": [] if is_ref else [c["raw"] for c in ref_calls]}})
-            meta.append({"job": i, "cfgs": cfgs, "synthetic": None})
-    # judge self-test: a few damaged copies of conforming histories must be rejected with the right clause
-    synth = 0
-    for k in range(len(observations)):
-        if synth >= 12:
-            break
-        if meta[k]["synthetic"] is None and "pipe" in meta[k]["cfgs"]:
-            for clause, bad in _corruptions(observations[k]["obs"])[:2]:
-                observations.append({"case": observations[k]["case"], "obs": bad})
-                meta.append({"job": meta[k]["job"], "cfgs": [], "synthetic": clause})
-                synth += 1
-    verdicts = dict(T.judge(ctx, wd, "Semantics", observations, name="judge"))
+            obs.append({"calls": calls, "ref": [] if is_ref else [c["raw"] for c in ref_calls]})
+            ms.append({"job": i, "cfgs": cfgs, "synthetic": None})
+            # judge self-test: damaged copies of a few histories must be rejected with the right clause
+            if "pipe" in cfgs and synth < 12:
+                for clause, bad in _corruptions(obs[-1])[:2]:
+                    obs.append(bad)
+                    ms.append({"job": i, "cfgs": [], "synthetic": clause})
+                    synth += 1
+        if obs:
+            records.append({"case": job["case"], "obs": obs})
+            meta.append(ms)
+    verdicts = T.judge(ctx, wd, "Semantics", records, name="judge")
+    observations = [(r, k) for r in range(len(records)) for k in range(len(records[r]["obs"]))]
     ctx.extra["distinct_histories_judged"] = len(observations) - synth
     ctx.extra["configurations_run"] = cfg_seen
     ctx.extra["response_encodings_seen"] = {k: sorted(v) for k, v in enc_seen.items()}
     ctx.extra["batches_externalized"] = ext_used
     counts: dict[str, int] = {}
     per_sig: dict[str, int] = {}
-    for k, m in enumerate(meta):
-        clauses = verdicts.get(k, [])
+    for (r, k) in observations:
+        m = meta[r][k]
+        clauses = verdicts.get((r, k), [])
         if m["synthetic"] is not None:
             if m["synthetic"] not in clauses:
                 raise MachineryError(f"C01 judge self-test: damaged history not rejected with {m['synthetic']} (got {clauses})")
@@ -296,7 +314,7 @@ def run(ctx: Ctx) -> None:
                         continue            # enough examples of this signature; totals are in the evidence
                     ctx.violation(name, sig, {"calls": job["case"]["calls"], "xs": job["xs"], "cfg": cfg, "call_index": idx,
                                               "failing_call": call, "clauses_on_this_call": names,
-                                              "observed": observations[k]["obs"]["calls"][idx - 1] if idx >= 1 else None,
+                                              "observed": records[r]["obs"][k]["calls"][idx - 1] if idx >= 1 else None,
                                               "what": CLAUSE_DOC.get(name, "")})
     ctx.extra["clause_occurrences"] = counts
     phases["total"] = round(time.time() - t_start, 1)
